@@ -1238,6 +1238,9 @@ x''', f'-D@s@', l[a - (b - c)]],
 
 def shape_text(shape):
     pl = PROJECT_LINE.replace("license:", "meson_version: '>= 0.' + '50', license:")
+    # entries that merely contain an addressed name ('werror=', 'buildtype=', 'BSD') must survive set/delete/remove_regex
+    pl = pl.replace("'werror=false']", "'sub:werror=true', 'werror=false', 'cpp_args=-Dbuildtype=x']").replace("'BSD']", "'BSD', '0BSD']")
+    assert 'sub:werror' in pl and '0BSD' in pl
     tgt_kw = BENIGN_KW
     lib = ''
     if shape == 'literal':
